@@ -24,6 +24,14 @@ CHECKS.update({
    text='The full product of ~150 bases and all references built from 4 schemes x 4 authorities x every dot/empty/colon path-token sequence up to length n x queries x fragments is resolved by the library (strict and identical-scheme-compat, default and ledger manager, char and wchar_t) and compared component for component and as text with a literal implementation of RFC 3986 section 5.2; base and reference are write-protected during the call.',
    ref='DESIGN.md section 3, C06', note=TRUST),
 })
+CHECKS.update({
+ 'C08': dict(cat='exploration', tech='bounded-exhaustive enumeration of (URI, mask 0..63, borrowed/owned, manager, char type) against a reference RFC 3986 6.2.2 normaliser; idempotence and mask-required laws on every URI',
+   text='A corpus built as the full product of component alternatives with case/percent-encoding variants and of all path-token sequences (dot, empty, colon, percent-encoded dot, case variants) in four contexts is normalised under every one of the 64 masks, borrowed and owned, with default and ledger manager, in both character types; every component is compared with the reference normal form (unselected components byte-identical), a second pass must change nothing, and normalising with the required mask must equal full normalisation.',
+   ref='DESIGN.md section 3, C08', note=TRUST + '; where a relative path reduces to the current directory the statement does not fix the spelling and \'\', \'.\' and \'./\' are all accepted here (C09 decides)'),
+ 'C09': dict(cat='exploration', tech='bounded-exhaustive differential exploration: normalise(resolve(normalise(R),B)) vs normalise(resolve(R,B)) over all (R,B) of a token-sequence product; kind preservation per R',
+   text='Every reference built from {no scheme, scheme} x {no authority, authority} x all dot/empty/colon path-token sequences up to length n x query x fragment is normalised, resolved against each of ~140 absolute bases and normalised again, and compared (text and uriEqualsUri) with resolving the untouched reference; scheme/authority presence and the path kind must survive normalisation. One genuine defect is an open known finding (relative path normalised to the empty reference; pinned by the repository tests).',
+   ref='DESIGN.md section 3, C09', note=TRUST),
+})
 NOT_YET = {}
 def main():
     props = [json.loads(l) for l in open(os.path.join(VERIF, 'properties.jsonl'))]
